@@ -326,7 +326,7 @@ func runZip(ctx *Ctx) {
 		for j := 0; j < r.Range(0, 8); j++ {
 			d := dirs[r.Intn(len(dirs))]
 			if r.Chance(1, 3) && strings.Count(d, "/") < 3 {
-				nd := d + []string{"d0/", "d1/", "d2/", ".d/", "src/"}[r.Intn(5)]
+				nd := d + []string{"d0/", "d1/", "d2/", ".d/", "src/", "x.skip/", "d.skip/"}[r.Intn(7)] // (a DIRECTORY the filter would reject: the filter is for files)
 				dirs = append(dirs, nd)
 				d = nd
 			}
